@@ -2,3 +2,4 @@
 (Properties/FnSession), which decides whether half-received QoS 2 messages survive a reconnect. -/
 import PahoProofs.Properties.C03
 import PahoProofs.Properties.FnSession
+import PahoProofs.Properties.SessionOrder
